@@ -65,8 +65,16 @@ def shrink(case):
         yield dict(case, same_object=False)
 
 
-def _translate(out, op, fst, word):
-    b = LineBudget(BUDGET)
+def _translate(out, op, fst, word, ref=None, scale=None):
+    # bounded liveness: the step budget grows with the number of configurations the reference has to walk for this
+    # input (measured: the real translate spends < 80 line events per configuration; 400 leaves a factor 5)
+    if ref is not None:
+        budget = 3000 + 400 * ref.configurations(word)
+    elif scale is not None:
+        budget = 3000 + 400 * scale
+    else:
+        budget = BUDGET
+    b = LineBudget(budget)
     try:
         with b:
             res = out.call(op, lambda: [tuple(o) for o in fst.translate(list(word))])
@@ -74,7 +82,7 @@ def _translate(out, op, fst, word):
         return res
     except BudgetExceeded:
         out.lines += b.used
-        out.fail(op + ":no-termination", word=list(word), budget=BUDGET)
+        out.fail(op + ":no-termination", word=list(word), budget=budget)
         return FAILED
 
 
@@ -88,7 +96,7 @@ def _check_rel(out, op, fst, ref, alpha, n):
     """the real transducer's translate against the reference relation"""
     for w in _words(alpha, n):
         want = ref.outputs(w)
-        got = _translate(out, op, fst, w)
+        got = _translate(out, op, fst, w, ref=ref)
         if got is FAILED:
             return False
         if set(got) != want:
@@ -159,7 +167,7 @@ def _run(case, out):
     first = out.call("translate.step", lambda: next(it, None))
     if first is not FAILED:
         out.fault("gen_interleave")
-        other = _translate(out, "translate", fa, alpha[:1] * 2)
+        other = _translate(out, "translate", fa, alpha[:1] * 2, ref=ra)
         if other is not FAILED and set(other) != ra.outputs(tuple(alpha[:1] * 2)):
             out.fail("translate:interleaved-second")
         out.call("translate.close", it.close)
@@ -185,7 +193,7 @@ def _run(case, out):
     if f is not FAILED:
         for w in _words(["x", "y"], 3):
             want = {tuple(w)} if rfa.accepts(tuple("s:" + s for s in w)) else set()
-            got = _translate(out, "to_fst.translate", f, w)
+            got = _translate(out, "to_fst.translate", f, w, scale=(len(rfa.states) + 1) * (len(w) + 1) * 3)
             if got is FAILED:
                 break
             if set(got) != want:
